@@ -86,6 +86,11 @@ CHECKS.update({
             "Every case of the grid is personalised by the real algorithms: keys = input identifiers (as strings) in input order, expected shapes, finite values; scipy_minimize: the objective re-evaluated from scratch at the returned point is not worse than at the recorded start; MCMC: the kept draws are bit-equal to the chain's draws after burn-in, their recorded attachment / regularity equal the from-scratch values, and the result is exactly their mean / the first draw of minimal loss per individual.",
             "Cohorts of 1-3 individuals; n_burn_in == n_iter (no kept draw) is outside the property's domain; mixture model only with hand-written parameters."),
 })
+CHECKS.update({
+    "C07": ("exploration", "exhaustive metamorphic enumeration of ordered cohorts drawn from a 5-individual catalogue, replacements of the other members' data, alone-vs-batch, permutations, scripted position-indexed draws and n_jobs through the real state / sampler / personalizations",
+            "Every ordered cohort of size 1-3 from the catalogue, every replacement of the other members' values, every permutation and n_jobs in {1,2,3} is run: per-individual attachment / regularity terms, scripted sampler decisions and personalised parameters must be bit-identical when only others change, rounding-identical alone vs in batch, totals must be the sums of per-individual terms, permutations must permute outputs, and the number of workers must not change keys, order or (within the stated optimiser tolerance) values.",
+            "Catalogue of 5 individuals; n_jobs independence decided up to the optimiser tolerance of DESIGN 2.3."),
+})
 NOT_APPLICABLE = {}
 
 def main():
